@@ -66,28 +66,40 @@ inductive EscSt where
   | dig (base k : Nat)                  -- k more digits of the given base are required
 deriving Repr, DecidableEq
 
+inductive ScanStep where
+  | close                               -- the closing quote
+  | err                                 -- "literal not terminated" / "invalid char escape"
+  | next (st : EscSt) (inc : Nat)       -- consumed; `inc` = 1 when a denoted character is complete
+deriving Repr, DecidableEq
+
+/-- one character of scanString / scanEscape / scanDigits -/
+def scanStep (q : Char) : EscSt → Char → ScanStep
+  | .normal, c =>
+    if c == q then .close
+    else if c == '\n' then .err
+    else if c == '\\' then .next .bs 0
+    else .next .normal 1
+  | .bs, c =>
+    if (simpleEsc c).isSome || c == q then .next .normal 1
+    else if digitOK 8 c then .next (.dig 8 2) 0
+    else if c == 'x' then .next (.dig 16 2) 0
+    else if c == 'u' then .next (.dig 16 4) 0
+    else if c == 'U' then .next (.dig 16 8) 0
+    else .err
+  | .dig base k, c =>
+    if digitOK base c then (if k ≤ 1 then .next .normal 1 else .next (.dig base (k - 1)) 0)
+    else .err
+
 /-- scans the literal's body after the opening quote: the body text (without the closing quote), the
 number of characters it denotes (an escape counts once) and what follows the closing quote;
 `none` = the scanner reported an error ("literal not terminated", "invalid char escape") -/
 def scanStrBody (q : Char) : EscSt → Nat → List Char → Option (List Char × Nat × List Char)
   | _, _, [] => none
-  | .normal, n, c :: cs =>
-    if c == q then some ([], n, cs)
-    else if c == '\n' then none
-    else if c == '\\' then (scanStrBody q .bs n cs).map fun r => (c :: r.1, r.2)
-    else (scanStrBody q .normal (n + 1) cs).map fun r => (c :: r.1, r.2)
-  | .bs, n, c :: cs =>
-    if (simpleEsc c).isSome || c == q then (scanStrBody q .normal (n + 1) cs).map fun r => (c :: r.1, r.2)
-    else if digitOK 8 c then (scanStrBody q (.dig 8 2) n cs).map fun r => (c :: r.1, r.2)
-    else if c == 'x' then (scanStrBody q (.dig 16 2) n cs).map fun r => (c :: r.1, r.2)
-    else if c == 'u' then (scanStrBody q (.dig 16 4) n cs).map fun r => (c :: r.1, r.2)
-    else if c == 'U' then (scanStrBody q (.dig 16 8) n cs).map fun r => (c :: r.1, r.2)
-    else none
-  | .dig base k, n, c :: cs =>
-    if digitOK base c then
-      (if k ≤ 1 then scanStrBody q .normal (n + 1) cs else scanStrBody q (.dig base (k - 1)) n cs).map
-        fun r => (c :: r.1, r.2)
-    else none
+  | st, n, c :: cs =>
+    match scanStep q st c with
+    | .close => some ([], n, cs)
+    | .err => none
+    | .next st' inc => (scanStrBody q st' (n + inc) cs).map fun r => (c :: r.1, r.2)
 
 /-! ### strconv.Unquote on a scanned literal's body -/
 
@@ -117,34 +129,47 @@ inductive UnqSt where
   | dig (kind : Char) (base k acc : Nat)     -- kind: 'x', 'u', 'U' or 'o' (octal)
 deriving Repr, DecidableEq
 
-/-- strconv.Unquote's loop over UnquoteChar for a double-quoted literal (`q = '"'`); the body comes from the
-scanner, so it holds no unescaped quote and no newline -/
-def unqBody (q : Char) : UnqSt → List Char → Unq
-  | .normal, [] => .ok []
-  | _, [] => .bad
-  | .normal, c :: cs =>
-    if c == q || c == '\n' then .bad
-    else if c == '\\' then unqBody q .bs cs
-    else (unqBody q .normal cs).cons (some c)
-  | .bs, c :: cs =>
+inductive UnqStep where
+  | err
+  | next (st : UnqSt) (emit : Option (Option Char))   -- `some none`: a character outside ASCII
+deriving Repr, DecidableEq
+
+/-- one character of strconv.UnquoteChar inside a literal quoted with `q` -/
+def unqStep (q : Char) : UnqSt → Char → UnqStep
+  | .normal, c =>
+    if c == q || c == '\n' then .err
+    else if c == '\\' then .next .bs none
+    else .next .normal (some (some c))
+  | .bs, c =>
     match simpleEsc c with
-    | some v => (unqBody q .normal cs).cons (some v)
+    | some v => .next .normal (some (some v))
     | none =>
-      if c == '\'' || c == '"' then (if c == q then (unqBody q .normal cs).cons (some c) else .bad)
-      else if digitOK 8 c then unqBody q (.dig 'o' 8 2 ((hexValS c).getD 0)) cs
-      else if c == 'x' then unqBody q (.dig 'x' 16 2 0) cs
-      else if c == 'u' then unqBody q (.dig 'u' 16 4 0) cs
-      else if c == 'U' then unqBody q (.dig 'U' 16 8 0) cs
-      else .bad
-  | .dig kind base k acc, c :: cs =>
+      if c == '\'' || c == '"' then (if c == q then .next .normal (some (some c)) else .err)
+      else if digitOK 8 c then .next (.dig 'o' 8 2 ((hexValS c).getD 0)) none
+      else if c == 'x' then .next (.dig 'x' 16 2 0) none
+      else if c == 'u' then .next (.dig 'u' 16 4 0) none
+      else if c == 'U' then .next (.dig 'U' 16 8 0) none
+      else .err
+  | .dig kind base k acc, c =>
     if digitOK base c then
       let acc' := acc * base + (hexValS c).getD 0
       if k ≤ 1 then
-        (if kind == 'x' then (unqBody q .normal cs).cons (numChar acc')
-         else if kind == 'o' then (if acc' > 255 then .bad else (unqBody q .normal cs).cons (numChar acc'))
-         else (if validRune acc' then (unqBody q .normal cs).cons (numChar acc') else .bad))
-      else unqBody q (.dig kind base (k - 1) acc') cs
-    else .bad
+        (if kind == 'x' then .next .normal (some (numChar acc'))
+         else if kind == 'o' then (if acc' > 255 then .err else .next .normal (some (numChar acc')))
+         else (if validRune acc' then .next .normal (some (numChar acc')) else .err))
+      else .next (.dig kind base (k - 1) acc') none
+    else .err
+
+/-- strconv.Unquote's loop over UnquoteChar for a double-quoted literal (`q = '"'`); the body comes from the
+scanner, so it holds no unescaped quote and no newline.  A syntax error anywhere wins over "outside ASCII". -/
+def unqBody (q : Char) : UnqSt → List Char → Unq
+  | .normal, [] => .ok []
+  | _, [] => .bad
+  | st, c :: cs =>
+    match unqStep q st c with
+    | .err => .bad
+    | .next st' none => unqBody q st' cs
+    | .next st' (some e) => (unqBody q st' cs).cons e
 
 /-! ### one token -/
 
